@@ -8,6 +8,8 @@
 #include <math.h>
 #include "a/poly.h"
 #include "a/trajpoly3.h"
+#include "a/trajpoly5.h"
+#include "a/trajpoly7.h"
 
 #if A_SIZE_REAL == 4
 #define K 16
@@ -69,6 +71,28 @@ int main(int argc, char **argv)
         put_split("vel0", a_trajpoly3_vel(&t, 0));
         fputs("}\n", f);
         ++n;
+    }
+    /* very short durations 2^-e (far below the machine epsilon, reciprocals far from overflow) with rest-to-rest integer
+       positions: every intermediate of the cubic and the quintic is an exact power-of-two multiple, so the end position is
+       p1 and the end velocity (and acceleration) zero exactly; the septic divides by six and is held to a few units of 2^-K */
+    {
+        static int const pp[][2] = {{0, 1}, {2, -1}, {-3, 0}, {1, 3}};
+        for (int deg = 3; deg <= 7; deg += 2) for (int ei = 0; ei < 2; ++ei) for (int pi = 0; pi < 4; ++pi)
+        {
+            int const e = sizeof(a_real) == 4 ? (deg == 3 ? 30 - 5 * ei : deg == 5 ? 22 - ei : 16 - ei) : (ei ? 100 : 60);
+            a_real const ts = (a_real)ldexpl(1.0L, -e), p0 = (a_real)pp[pi][0], p1 = (a_real)pp[pi][1];
+            a_real posT, velT, accT, pos0;
+            if (deg == 3) { a_trajpoly3 t; a_trajpoly3_gen(&t, ts, p0, p1, 0, 0); posT = a_trajpoly3_pos(&t, ts); velT = a_trajpoly3_vel(&t, ts); accT = 0; pos0 = a_trajpoly3_pos(&t, 0); }
+            else if (deg == 5) { a_trajpoly5 t; a_trajpoly5_gen(&t, ts, p0, p1, 0, 0, 0, 0); posT = a_trajpoly5_pos(&t, ts); velT = a_trajpoly5_vel(&t, ts); accT = a_trajpoly5_acc(&t, ts); pos0 = a_trajpoly5_pos(&t, 0); }
+            else { a_trajpoly7 t; a_trajpoly7_gen(&t, ts, p0, p1, 0, 0, 0, 0, 0, 0); posT = a_trajpoly7_pos(&t, ts); velT = 0; accT = 0; pos0 = a_trajpoly7_pos(&t, 0); }
+            fprintf(f, "{\"f\":\"trajtiny\",\"width\":%d,\"K\":%d,\"deg\":%d,\"e\":%d,\"p\":[%d,%d]", (int)sizeof(a_real), K, deg, e, pp[pi][0], pp[pi][1]);
+            put_split("posT", posT);
+            put_split("velT", velT);
+            put_split("accT", accT);
+            put_split("pos0", pos0);
+            fputs("}\n", f);
+            ++n;
+        }
     }
     fclose(f);
     printf("SUMMARY {\"events\":%ld}\n", n);
